@@ -156,7 +156,7 @@ FLOORS = {
               "sets": {"shuffle_feature": 145, "sort_feature": 125, "dedup_feature": 80, "set_index_feature": 20},
               "max_skipped_fraction": 0.2},
     "thorough": {"evaluations": 16000, "distinct_nontrivial": 13000, "counters": {k: 12 * v for k, v in _QF.items()},
-                 "sets": {"shuffle_feature": 400, "sort_feature": 280, "dedup_feature": 160, "set_index_feature": 20},
+                 "sets": {"shuffle_feature": 830, "sort_feature": 460, "dedup_feature": 180, "set_index_feature": 24},
                  "max_skipped_fraction": 0.2},
 }
 EXHAUSTIVE_SPACE = None
